@@ -729,6 +729,8 @@ class Path:
     def ev_Call(self, node, fr):
         # super().__init__(...)
         fnode = node.func
+        if seqs.is_message_join(node):
+            return Opaque('str')
         args = []
         for a in node.args:
             if isinstance(a, ast.Starred):
@@ -855,6 +857,8 @@ class Path:
             ta = a if isinstance(a, tuple) else (a,)
             tb = b if isinstance(b, tuple) else (b,)
             return ta + tb
+        if isinstance(a, Opaque) or isinstance(b, Opaque):
+            return seqs.opaque_binop(op, a, b)
         conc = not is_z3(a) and not is_z3(b)
         if conc and not isinstance(a, SymFloat) and not isinstance(b, SymFloat):
             return self.binop_concrete(op, a, b)
